@@ -320,7 +320,7 @@ def impl_result_at(call, index):
         return impl_result(call)
     t0 = time.time()
     iv = impl_result(call)
-    if time.time() - t0 > 0.05:
+    if time.time() - t0 > 0.25:
         return iv
     import recycle
 
